@@ -13,13 +13,17 @@ type Ref struct {
 	// the callee's VP is derived from the caller's ("<caller VP>><caller>.<site>").
 	VP     string
 	Vars   [][2]string
-	Silent bool
+	// ListVars are passed as YAML lists (value = space separated items)
+	ListVars [][2]string
+	Silent   bool
 }
 
 type For struct {
 	List   []string
 	Matrix [][]string // Matrix[i][0] = key, rest = values (row-major expansion expected)
 	Var    string     // loop over a variable (split on whitespace)
+	// MatrixRef rows: [key, variable name]; the row is `ref: .<variable>` (a list passed by the caller)
+	MatrixRef [][2]string
 }
 
 // C is one cmds entry.
@@ -30,6 +34,7 @@ type C struct {
 	Defer       bool
 	For         *For
 	Extra       string // extra template text echoed in the probe's last field
+	ShExtra     string // extra shell text (expanded by the shell inside double quotes) appended to the probe line
 	Silent      bool
 }
 
@@ -101,12 +106,22 @@ func refVars(owner string, site string, r Ref) string {
 	for _, v := range r.Vars {
 		kv = append(kv, v[0]+": "+q(v[1]))
 	}
+	for _, v := range r.ListVars {
+		kv = append(kv, v[0]+": ["+strings.Join(mapq(strings.Fields(v[1])), ", ")+"]")
+	}
 	return "{" + strings.Join(kv, ", ") + "}"
 }
 
 func forYAML(f *For) string {
 	if f.Var != "" {
 		return "{var: " + f.Var + "}"
+	}
+	if len(f.MatrixRef) > 0 {
+		var rows []string
+		for _, r := range f.MatrixRef {
+			rows = append(rows, r[0]+": {ref: ."+r[1]+"}")
+		}
+		return "{matrix: {" + strings.Join(rows, ", ") + "}}"
 	}
 	if len(f.Matrix) > 0 {
 		var rows []string
@@ -131,6 +146,13 @@ func itemTmpl(f *For) string {
 	if f == nil {
 		return ""
 	}
+	if len(f.MatrixRef) > 0 {
+		var parts []string
+		for _, r := range f.MatrixRef {
+			parts = append(parts, "{{.ITEM."+r[0]+"}}")
+		}
+		return "#" + strings.Join(parts, ".")
+	}
 	if len(f.Matrix) > 0 {
 		var parts []string
 		for _, r := range f.Matrix {
@@ -153,9 +175,16 @@ func (f *For) Items(vars map[string]string) []string {
 		}
 		return out
 	}
-	if len(f.Matrix) > 0 {
+	mat := f.Matrix
+	if len(f.MatrixRef) > 0 {
+		mat = nil
+		for _, r := range f.MatrixRef {
+			mat = append(mat, append([]string{r[0]}, strings.Fields(vars[r[1]])...))
+		}
+	}
+	if len(mat) > 0 {
 		out := []string{""}
-		for _, r := range f.Matrix {
+		for _, r := range mat {
 			var next []string
 			for _, p := range out {
 				for _, v := range r[1:] {
@@ -183,6 +212,9 @@ func (f *For) Items(vars map[string]string) []string {
 func probeCmd(task string, idx int, c C) string {
 	id := fmt.Sprintf("P|%s|%d%s|{{.VP}}|%s", task, idx, itemTmpl(c.For), c.Extra)
 	s := "printf '%s\\n' " + shq(id)
+	if c.ShExtra != "" {
+		s += `"` + c.ShExtra + `"`
+	}
 	if c.Exit != 0 {
 		s += fmt.Sprintf("; exit %d", c.Exit)
 	}
@@ -454,10 +486,7 @@ func (pg *Prog) Completed(ti *TraceIndex, in Inst, pos int, depth int) Status {
 	}
 	var defers []pend
 	res := StOK
-	vars := map[string]string{}
-	for _, v := range t.Vars {
-		vars[v[0]] = v[1]
-	}
+	vars := pg.InstVars(in)
 loop:
 	for j, c := range t.Cmds {
 		for _, item := range c.For.Items(vars) {
@@ -580,4 +609,163 @@ func SortedSet(m map[string]bool) []string {
 	}
 	sort.Strings(out)
 	return out
+}
+
+// ParentOf decodes the call path in an instance's VP: the calling instance and the site
+// ("d0", "c2", "c2#x") of the reference. ok=false for root calls and for deduplicated
+// (shared) instances, whose VP is a constant.
+func ParentOf(in Inst) (parent Inst, site string, ok bool) {
+	i := strings.LastIndexByte(in.VP, '>')
+	if i < 0 {
+		return Inst{}, "", false
+	}
+	seg := in.VP[i+1:]
+	d := strings.IndexByte(seg, '.')
+	if d < 0 {
+		return Inst{}, "", false
+	}
+	return Inst{seg[:d], in.VP[:i]}, seg[d+1:], true
+}
+
+// SiteIndex splits "c2#x" into ('c', 2, "#x").
+func SiteIndex(site string) (kind byte, idx int, item string) {
+	if site == "" {
+		return 0, 0, ""
+	}
+	kind = site[0]
+	rest := site[1:]
+	if i := strings.IndexByte(rest, '#'); i >= 0 {
+		item = rest[i:]
+		rest = rest[:i]
+	}
+	fmt.Sscanf(rest, "%d", &idx)
+	return
+}
+
+// InstVars: the variables an instance sees as far as the program model knows them (global,
+// call-site, task vars — task vars win).
+func (pg *Prog) InstVars(in Inst) map[string]string {
+	t := pg.Task(in.Task)
+	vars := map[string]string{}
+	for _, v := range pg.Vars {
+		vars[v[0]] = v[1]
+	}
+	if par, site, ok := ParentOf(in); ok {
+		if pt := pg.Task(par.Task); pt != nil {
+			kind, sj, _ := SiteIndex(site)
+			var ref *Ref
+			if kind == 'd' && sj < len(pt.Deps) {
+				ref = &pt.Deps[sj]
+			} else if kind == 'c' && sj < len(pt.Cmds) {
+				ref = pt.Cmds[sj].Call
+			}
+			if ref != nil {
+				for _, v := range ref.Vars {
+					vars[v[0]] = v[1]
+				}
+				for _, v := range ref.ListVars {
+					vars[v[0]] = v[1]
+				}
+			}
+		}
+	}
+	if t != nil {
+		for _, v := range t.Vars {
+			vars[v[0]] = v[1]
+		}
+	}
+	return vars
+}
+
+func (pg *Prog) taskVars(t *T) map[string]string {
+	vars := map[string]string{}
+	for _, v := range pg.Vars {
+		vars[v[0]] = v[1]
+	}
+	for _, v := range t.Vars {
+		vars[v[0]] = v[1]
+	}
+	return vars
+}
+
+// EntryStatus evaluates one cmds entry (j,item) of instance in on the prefix [0,pos).
+func (pg *Prog) EntryStatus(ti *TraceIndex, in Inst, j int, item string, pos int) Status {
+	t := pg.Task(in.Task)
+	c := t.Cmds[j]
+	if c.Call != nil {
+		return pg.Completed(ti, CalleeInst(in, fmt.Sprintf("c%d%s", j, item), *c.Call), pos, 1)
+	}
+	p := ti.First('F', in.Task, fmt.Sprintf("%d%s", j, item), in.VP)
+	if p < 0 || p >= pos {
+		return StNotFinished
+	}
+	if c.Exit != 0 && !c.IgnoreError && !t.IgnoreError {
+		return StFailed
+	}
+	return StOK
+}
+
+// PrevEntries evaluates all regular (non-defer) entries of instance in that precede entry
+// (j,item) in expansion order: StOK iff each of them completed successfully (or its failure
+// is covered by ignore_error).
+func (pg *Prog) PrevEntries(ti *TraceIndex, in Inst, j int, item string, pos int) (Status, string) {
+	t := pg.Task(in.Task)
+	if t == nil {
+		return StOK, ""
+	}
+	vars := pg.InstVars(in)
+	for jj, c := range t.Cmds {
+		for _, it := range c.For.Items(vars) {
+			if jj == j && it == item {
+				return StOK, ""
+			}
+			if jj > j {
+				return StOK, ""
+			}
+			if c.Defer {
+				continue
+			}
+			st := pg.EntryStatus(ti, in, jj, it, pos)
+			if st == StFailed && (t.IgnoreError || (c.IgnoreError && c.Call == nil)) {
+				continue
+			}
+			if st != StOK {
+				return st, fmt.Sprintf("%d%s", jj, it)
+			}
+		}
+	}
+	return StOK, ""
+}
+
+// ExpectedRegular lists the ids ("2", "2#x") of the regular probe entries of t in order.
+func (pg *Prog) ExpectedRegular(in Inst) []string {
+	var out []string
+	t := pg.Task(in.Task)
+	vars := pg.InstVars(in)
+	for j, c := range t.Cmds {
+		if c.Defer || c.Call != nil {
+			continue
+		}
+		for _, it := range c.For.Items(vars) {
+			out = append(out, fmt.Sprintf("%d%s", j, it))
+		}
+	}
+	return out
+}
+
+// Instances groups probe events by instance, preserving order.
+func Instances(ev []PE) (map[Inst][]PE, []Inst) {
+	m := map[Inst][]PE{}
+	var order []Inst
+	for _, e := range ev {
+		if e.Task == "" {
+			continue
+		}
+		in := e.Inst()
+		if _, ok := m[in]; !ok {
+			order = append(order, in)
+		}
+		m[in] = append(m[in], e)
+	}
+	return m, order
 }
